@@ -806,4 +806,46 @@ theorem constants_match_code :
       (.done, [.send (reply (UInt8.ofNat SOCKS5_REP_ADDRESS_TYPE_NOT_SUPPORTED)), .close]) := by
   decide +kernel
 
+/-! ### audit round 6: further non-vacuity witnesses (the hypotheses of the whole-history theorems instantiated) -/
+
+private def auPre : Bytes := [5, 1, 0]                                   -- greeting offering "no authentication"
+private def auPreA : Bytes := [5, 2, 0, 2, 1, 1, 0x61, 1, 0x62]           -- greeting offering 00,02 + user "a" / password "b"
+private theorem auValidPre : ValidPre envT auPre := ⟨[0], by decide, by decide, Or.inl ⟨rfl, rfl⟩⟩
+private theorem auValidPreA : ValidPre envA auPreA :=
+  ⟨[0, 2], by decide, by decide, Or.inr ⟨rfl, 1, [0x61], [0x62], by decide, by decide, by decide, rfl⟩⟩
+private theorem auDest4 : ValidDest 1 [10, 0, 0, 1] 443 := ⟨Or.inl ⟨rfl, rfl⟩, by decide⟩
+private theorem auDest6 : ValidDest 4 [0x20,1,0xd,0xb8,0,0,0,0,0,0,0,0,0,0,0,1] 80 := ⟨Or.inr (Or.inl ⟨rfl, rfl⟩), by decide⟩
+
+/-- `after_request_relayed_once_in_order`, `connects_to_requested_ip` (IPv6), `relayed_only_after_request`: a handshake cut in
+    three odd places, with two trailing bytes -/
+example := after_request_relayed_once_in_order envT [[5], [1, 0, 5, 1, 0, 1, 10, 0], [0, 1, 1, 0xbb, 7, 8]] auPre 1 [10, 0, 0, 1] 443 [7, 8]
+  (by decide) auValidPre auDest4 (fun _ => rfl)
+example := connects_to_requested_ip envT [[5, 1, 0, 5, 1, 0, 4, 0x20,1,0xd,0xb8,0,0,0,0], [0,0,0,0,0,0,0,1, 0, 80]] auPre 4
+  [0x20,1,0xd,0xb8,0,0,0,0,0,0,0,0,0,0,0,1] 80 [] (by decide) auValidPre auDest6
+example : ((inc envT).feedAll init [[5], [1, 0, 5, 1, 0, 1, 10, 0], [0, 1, 1, 0xbb, 7, 8]]).1 = .relay := by decide +kernel
+/-- `unreachable_rejected` (eager connect fails, with authentication), `other_commands_rejected`, `unknown_atyp_rejected` -/
+example := unreachable_rejected envA [auPreA, [5, 1, 0, 1, 10, 0, 0, 1, 1, 0xbb]] auPreA 1 [10, 0, 0, 1] 443 []
+  (by decide) auValidPreA auDest4 rfl rfl
+example := other_commands_rejected envT [[5, 1], [0, 5, 3, 0, 1, 0, 9]] auPre 3 0 1 0 [9] (by decide) auValidPre (by decide)
+example := unknown_atyp_rejected envA [auPreA ++ [5, 1, 0, 2, 0]] auPreA 2 0 [] (by decide) auValidPreA (by decide) (by decide) (by decide)
+/-- `method_selection` (both branches) and `greeting_incomplete_silent` -/
+example := (method_selection envA [0, 1] [9] [[5, 2, 0], [1, 9]] (by decide) (by decide)).2 (by decide)
+example := (method_selection envA [0, 2] [] [[5, 2, 0], [2]] (by decide) (by decide)).1 (by decide)
+example := greeting_incomplete_silent envT [0, 1, 2] 3 [[5], [3, 0]] (by decide) (by decide) (by decide)
+/-- `schedule_and_segmentation_independent`, `deferred_handshake_relays`: data, then the hook and the connect complete late, EOF last -/
+private def auEnvL : Env := ⟨true, fun _ _ => true, true, true⟩
+private theorem auValidPreL : ValidPre auEnvL auPreA :=
+  ⟨[0, 2], by decide, by decide, Or.inr ⟨rfl, 1, [0x61], [0x62], by decide, by decide, rfl, rfl⟩⟩
+example := deferred_handshake_relays auEnvL
+  [.ev (.data auPreA), .ev (.data [5, 1, 0, 1, 10, 0]), .complete, .ev (.data [0, 1, 1, 0xbb, 7]), .ev (.data [8]), .complete]
+  [auPreA, [5, 1, 0, 1, 10, 0], [0, 1, 1, 0xbb, 7], [8]] auPreA 1 [10, 0, 0, 1] 443 [7, 8]
+  (by decide) (by decide) auValidPreL auDest4 (fun _ => rfl)
+example := schedule_and_segmentation_independent auEnvL
+  [.ev (.data auPreA), .complete, .ev (.data [5, 1, 0, 1, 10, 0, 0, 1, 1, 0xbb]), .ev .close] [auPreA, [5, 1, 0, 1, 10, 0, 0, 1, 1, 0xbb]] true
+  (by decide)
+/-- `buffered_request_then_data_relayed`: its start state is reached by the schedule "greeting + credentials, then request, then data" -/
+example : (actAll ⟨true, fun _ _ => true, false, true⟩ (.settled init)
+    [.ev (.data [5, 1, 2, 1, 0, 0]), .ev (.data (encodeReq 1 [1, 2, 3, 4] 80 ++ [7])), .ev (.data [8])]).1 =
+    .authWait [] [] [] [.data (encodeReq 1 [1, 2, 3, 4] 80 ++ [7]), .data [8]] := by decide +kernel
+
 end MitmVerif.Props.C21
